@@ -31,7 +31,36 @@ var (
 	Log    []string
 )
 
-func Reset(failAt int) { Calls, FailAt, Log = 0, failAt, nil }
+func Reset(failAt int) { Calls, FailAt, Log, Errno, Persist, Budget = 0, failAt, nil, syscall.EIO, false, 0 }
+
+// Errno is what the failing call reports (EIO unless set); Persist makes every call from FailAt on fail (a resource
+// that stays exhausted); Budget > 0 ends a run whose number of file-system calls passes it (an operation that keeps
+// retrying a failing call would otherwise never end when it runs outside the scheduler).
+var (
+	Errno   = syscall.EIO
+	Persist bool
+	Budget  int
+)
+
+// ResetKind is Reset with the kind of fault: errno by name ("" = EIO) and persistence.
+func ResetKind(failAt int, errno string, persist bool) {
+	Reset(failAt)
+	Persist = persist
+	switch errno {
+	case "EEXIST":
+		Errno = syscall.EEXIST
+	case "EMFILE":
+		Errno = syscall.EMFILE
+	case "EACCES":
+		Errno = syscall.EACCES
+	case "ENOSPC":
+		Errno = syscall.ENOSPC
+	case "EINTR":
+		Errno = syscall.EINTR
+	case "EAGAIN":
+		Errno = syscall.EAGAIN
+	}
+}
 
 func step(name, path string) error {
 	mc.YieldAs("fs:" + name)
@@ -39,8 +68,11 @@ func step(name, path string) error {
 	if len(Log) < 64 {
 		Log = append(Log, name+" "+path)
 	}
-	if FailAt > 0 && Calls == FailAt {
-		return &os.PathError{Op: name, Path: path, Err: syscall.EIO}
+	if Budget > 0 && Calls > Budget {
+		panic(fmt.Sprintf("verif: more than %d file-system calls: the operation keeps retrying a call that keeps failing (%s %s)", Budget, name, path))
+	}
+	if FailAt > 0 && (Calls == FailAt || (Persist && Calls > FailAt)) {
+		return &os.PathError{Op: name, Path: path, Err: Errno}
 	}
 	return nil
 }
